@@ -351,6 +351,7 @@ func runC12(c *Ctx) {
 	// ---------- R13 what a transfer counts is what it moved, from where the offset said (shared with C01.R1) ----------
 	// Read/Write/ReadFrom/WriteTo add the count of their helper to the offset: a helper that counts bytes it did not
 	// move, or that asks for another place than start+cursor (in 64 bits), leaves the offset where os.File would not
+	checkWriteChunkCountsOnlyAcknowledged(c, "R14")
 	c.withRule("R13", func() {
 		c01TransferSitesOnly = true
 		defer func() { c01TransferSitesOnly = false }()
@@ -527,6 +528,7 @@ func runC13(c *Ctx) {
 	// R18 (shared with C20.Z8): with a worker count of zero the concurrent transfers start no worker, nothing moves
 	// and the reducers report the full length with a nil error
 	checkWorkerCountBounded(c, "R18")
+	checkWriteChunkCountsOnlyAcknowledged(c, "R19")
 
 	// R7: ReadFrom / ReadFromWithConcurrency leave the File offset at the end of the intact prefix
 	checkOffsetStores(c, "R7", map[string]bool{"(*File).ReadFrom": true, "(*File).readFromWithConcurrency": true})
@@ -1990,4 +1992,40 @@ func checkNilOnlyWhenComplete(c *Ctx, rule string) {
 		}
 	}
 	c.check(n >= 3, rule, "nil returns of the positional transfer functions", "?", fmt.Sprintf("%d returns", n), fmt.Sprintf("only %d nil-error returns found", n))
+}
+
+// checkWriteChunkCountsOnlyAcknowledged (C13.R19 / C12.R14 / C01.R24): writeChunkAt sends one WRITE and reports how many
+// bytes of it the server took — len(b) after an OK status, nothing otherwise.  Its callers (Write, writeAt's
+// sequential loop, ReadFrom) add that count to their totals and to the File offset whatever the error: a refused chunk
+// reported as len(b) is counted as moved.  Every return whose error is not the nil constant carries the count 0.
+func checkWriteChunkCountsOnlyAcknowledged(c *Ctx, rule string) {
+	p := c.P
+	fn := p.Func("(*File).writeChunkAt")
+	if fn == nil {
+		c.missing(rule, "(*File).writeChunkAt")
+		return
+	}
+	n := 0
+	for _, in := range findInstrs(fn, isReturn) {
+		r := in.(*ssa.Return)
+		if len(r.Results) != 2 {
+			continue
+		}
+		n++
+		if isNilConst(r.Results[1]) {
+			// success: the whole chunk
+			t := affineOf(r.Results[0])
+			full := len(t.coef) == 1 && t.c == 0
+			for k, v := range t.coef {
+				if !strings.HasPrefix(k, "len(") || v != 1 {
+					full = false
+				}
+			}
+			c.check(full, rule, "writeChunkAt success returns the chunk's length", p.Pos(in.Pos()), "len(b), nil", "a successful WRITE is reported with "+t.String()+" bytes, not the chunk's length")
+			continue
+		}
+		k, isConst := constInt(r.Results[0])
+		c.check(isConst && k == 0, rule, "writeChunkAt failure returns no bytes", p.Pos(in.Pos()), "0, err", "a WRITE that failed (or whose reply was not an OK status) is reported as having moved bytes: the caller adds them to its count and to the File offset, the refused chunk is skipped")
+	}
+	c.check(n >= 3, rule, "returns of writeChunkAt", p.Pos(fn.Pos()), fmt.Sprintf("%d returns", n), fmt.Sprintf("only %d returns found", n))
 }
